@@ -5,40 +5,69 @@
 use crate::verif_incrate::common::*;
 use super::*;
 
-fn s_eq(a: &str, b: &str) -> bool {
-    str_eq2(a, b)
+/// a String of concrete length `n` (<= 2) with symbolic bytes; `letters`: lower-case letters
+/// only (valid in names), otherwise any non-NUL ASCII byte
+fn sym_s(n: usize, letters: bool) -> String {
+    let (b0, b1) = (any_u8(), any_u8());
+    if letters {
+        assume(b0 >= b'a' && b0 <= b'z' && b1 >= b'a' && b1 <= b'z');
+    } else {
+        assume(b0 != 0 && b0 < 128 && b1 != 0 && b1 < 128);
+    }
+    let v = if n == 0 { Vec::new() } else if n == 1 { vec![b0] } else { vec![b0, b1] };
+    unsafe { String::from_utf8_unchecked(v) }
 }
-
-/// id: name (1..=2 bytes) and one const label value (0..=2 bytes) symbolic, two descriptors:
-/// equal ids exactly when name and value are equal (boundary-shifted splits told apart).
-#[cfg_attr(kani, kani::proof, kani::unwind(6),
-    kani::stub(std::fmt::format, fmt_stub),
-    kani::stub(<fnv::FnvHasher as std::hash::Hasher>::write, fnv_write_injective))]
-pub fn c15_id_name_value_boundary() {
-    let (n1, v1, n2, v2) = (sym_string2(), sym_string2(), sym_string2(), sym_string2());
-    assume(n1.len() >= 1 && n2.len() >= 1);
-    let same = s_eq(&n1, &n2) && s_eq(&v1, &v2);
-    let shifted = !same && n1.len() + v1.len() == n2.len() + v2.len() && n1.len() != n2.len();
+fn bytes_eq(a: &String, b: &String) -> bool {
+    let (a, b) = (a.as_bytes(), b.as_bytes());
+    a.len() == b.len() && (a.len() < 1 || a[0] == b[0]) && (a.len() < 2 || a[1] == b[1])
+}
+/// two descriptors with one const label "k": (name of ln1 bytes, value of lv1 bytes) and
+/// (ln2, lv2), all bytes symbolic: equal ids exactly when name and value are equal
+fn id_pair(ln1: usize, lv1: usize, ln2: usize, lv2: usize) {
+    let (n1, v1, n2, v2) = (sym_s(ln1, true), sym_s(lv1, false), sym_s(ln2, true), sym_s(lv2, false));
+    let same = bytes_eq(&n1, &n2) && bytes_eq(&v1, &v2);
     let mut m1 = Map::new();
     m1.insert(String::from("k"), v1);
     let mut m2 = Map::new();
     m2.insert(String::from("k"), v2);
-    let d1 = Desc::new(n1, String::from("h"), Vec::new(), m1);
-    let d2 = Desc::new(n2, String::from("h"), Vec::new(), m2);
-    if let (Ok(d1), Ok(d2)) = (&d1, &d2) {
-        vcover!(shifted, "c15.id: boundary-shifted name/value split with valid names");
-        vcover!(same, "c15.id: equal descriptors");
-        assert!((d1.id == d2.id) == same, "C15 same identity exactly when same name and same const-label values");
-        assert!(d1.dim_hash == d2.dim_hash, "C15 same help and label names give the same dimension signature");
-    }
+    let d1 = Desc::new(n1, String::from("h"), Vec::new(), m1).unwrap();
+    let d2 = Desc::new(n2, String::from("h"), Vec::new(), m2).unwrap();
+    assert!((d1.id == d2.id) == same, "C15 same identity exactly when same name and same const-label values");
+    assert!(d1.dim_hash == d2.dim_hash, "C15 same help and label names give the same dimension signature");
     std::mem::forget(d1);
     std::mem::forget(d2);
+}
+
+/// id: boundary-shifted splits of 3 bytes: name "xy" + value "z"  vs  name "x" + value "yz".
+#[cfg_attr(kani, kani::proof, kani::unwind(6),
+    kani::stub(std::fmt::format, fmt_stub),
+    kani::stub(<[crate::proto::LabelPair]>::sort, sort_stub),
+    kani::stub(<fnv::FnvHasher as std::hash::Hasher>::write, fnv_write_injective))]
+pub fn c15_id_boundary_shift_21_vs_12() {
+    id_pair(2, 1, 1, 2);
+}
+/// id: name "xy" + empty value  vs  name "x" + value "y".
+#[cfg_attr(kani, kani::proof, kani::unwind(6),
+    kani::stub(std::fmt::format, fmt_stub),
+    kani::stub(<[crate::proto::LabelPair]>::sort, sort_stub),
+    kani::stub(<fnv::FnvHasher as std::hash::Hasher>::write, fnv_write_injective))]
+pub fn c15_id_boundary_shift_20_vs_11() {
+    id_pair(2, 0, 1, 1);
+}
+/// id: same shape (2-byte name, 2-byte value): equal exactly when all bytes are equal.
+#[cfg_attr(kani, kani::proof, kani::unwind(6),
+    kani::stub(std::fmt::format, fmt_stub),
+    kani::stub(<[crate::proto::LabelPair]>::sort, sort_stub),
+    kani::stub(<fnv::FnvHasher as std::hash::Hasher>::write, fnv_write_injective))]
+pub fn c15_id_same_shape_22() {
+    id_pair(2, 2, 2, 2);
 }
 
 /// id with two const labels: independent of insertion order and of map iteration order; values
 /// are taken in label-name order.
 #[cfg_attr(kani, kani::proof, kani::unwind(6),
     kani::stub(std::fmt::format, fmt_stub),
+    kani::stub(<[crate::proto::LabelPair]>::sort, sort_stub),
     kani::stub(<fnv::FnvHasher as std::hash::Hasher>::write, fnv_write_injective))]
 pub fn c15_id_two_const_labels_order_independent() {
     crate::verif_map::set_symbolic_order(true);
@@ -67,52 +96,66 @@ pub fn c15_id_two_const_labels_order_independent() {
     std::mem::forget(d2);
 }
 
-fn var_labels(k: u8) -> Vec<String> {
-    match k {
-        0 => Vec::new(),
-        1 => vec![String::from("x")],
-        2 => vec![String::from("y")],
-        3 => vec![String::from("x"), String::from("y")],
-        _ => vec![String::from("y"), String::from("x")],
+fn vl(names: &[&str]) -> Vec<String> {
+    let mut v = Vec::with_capacity(2);
+    let mut i = 0;
+    while i < names.len() {
+        v.push(String::from(names[i]));
+        i += 1;
     }
+    v
 }
-fn var_set(k: u8) -> u8 {
-    match k { 0 => 0, 1 => 1, 2 => 2, _ => 3 }
-}
-
-/// dim_hash: same exactly when same help, same const-name set, same variable-name *set*.
-#[cfg_attr(kani, kani::proof, kani::unwind(6),
-    kani::stub(std::fmt::format, fmt_stub),
-    kani::stub(<fnv::FnvHasher as std::hash::Hasher>::write, fnv_write_injective))]
-pub fn c15_dim_hash_structural() {
+/// two descriptors with symbolic 1-letter help texts, the given variable-label lists and
+/// optionally a const label "x" (values differ): dim_hash equal exactly when the helps are equal
+/// and `same_structure`
+fn dim_pair(v1: &[&str], c1: bool, v2: &[&str], c2: bool, same_structure: bool) {
     let (h1, h2) = (any_u8(), any_u8());
     assume(h1 >= b'a' && h1 <= b'z' && h2 >= b'a' && h2 <= b'z');
-    let (k1, k2) = (any_u8(), any_u8());
-    assume(k1 < 5 && k2 < 5);
-    // a const label "x" instead of a variable label "x" must give a different signature
-    let (c1, c2) = (any_bool(), any_bool());
-    assume(!(c1 && (k1 != 0 && k1 != 2)) && !(c2 && (k2 != 0 && k2 != 2)));
     let s = |b: u8| unsafe { String::from_utf8_unchecked(vec![b]) };
     let mut m1 = Map::new();
     if c1 { m1.insert(String::from("x"), String::from("1")); }
     let mut m2 = Map::new();
     if c2 { m2.insert(String::from("x"), String::from("2")); }
-    let d1 = Desc::new(String::from("a"), s(h1), var_labels(k1), m1).unwrap();
-    let d2 = Desc::new(String::from("a"), s(h2), var_labels(k2), m2).unwrap();
-    let same = h1 == h2 && c1 == c2 && var_set(k1) == var_set(k2);
-    vcover!(same && k1 == 3 && k2 == 4, "c15.dim: same variable-name set in a different order");
-    vcover!(!same && c1 && !c2 && k1 == 0 && k2 == 1, "c15.dim: const x vs variable x");
-    assert!((d1.dim_hash == d2.dim_hash) == same, "C15 same dimension signature exactly when same help and same sets of const and variable label names");
+    let d1 = Desc::new(String::from("a"), s(h1), vl(v1), m1).unwrap();
+    let d2 = Desc::new(String::from("a"), s(h2), vl(v2), m2).unwrap();
+    assert!((d1.dim_hash == d2.dim_hash) == (h1 == h2 && same_structure),
+        "C15 same dimension signature exactly when same help and same sets of const and variable label names");
     if c1 && c2 { assert!(d1.id != d2.id, "C15 different const-label values give different identities"); }
+    if !c1 && !c2 { assert!(d1.id == d2.id, "C15 identity does not depend on help or variable labels"); }
     std::mem::forget(d1);
     std::mem::forget(d2);
 }
 
+/// dim_hash: variable-label *sets* ([x,y] vs [y,x] equal; [x] vs [y] and [x] vs [x,y] differ).
+#[cfg_attr(kani, kani::proof, kani::unwind(6),
+    kani::stub(std::fmt::format, fmt_stub),
+    kani::stub(<[crate::proto::LabelPair]>::sort, sort_stub),
+    kani::stub(<fnv::FnvHasher as std::hash::Hasher>::write, fnv_write_injective))]
+pub fn c15_dim_hash_variable_label_sets() {
+    dim_pair(&["x", "y"], false, &["y", "x"], false, true);
+    dim_pair(&["x"], false, &["y"], false, false);
+    dim_pair(&["x"], false, &["x", "y"], false, false);
+}
+/// dim_hash: a const label x is not a variable label x; same const-name set with different
+/// values keeps the signature (and changes the identity).
+#[cfg_attr(kani, kani::proof, kani::unwind(6),
+    kani::stub(std::fmt::format, fmt_stub),
+    kani::stub(<[crate::proto::LabelPair]>::sort, sort_stub),
+    kani::stub(<fnv::FnvHasher as std::hash::Hasher>::write, fnv_write_injective))]
+pub fn c15_dim_hash_const_vs_variable() {
+    dim_pair(&[], true, &["x"], false, false);
+    dim_pair(&["y"], true, &["y"], true, true);
+    dim_pair(&[], true, &[], false, false);
+}
+
 pub fn dispatch(name: &str) -> Option<fn()> {
     Some(match name {
-        "c15_id_name_value_boundary" => c15_id_name_value_boundary,
+        "c15_id_boundary_shift_21_vs_12" => c15_id_boundary_shift_21_vs_12,
+        "c15_id_boundary_shift_20_vs_11" => c15_id_boundary_shift_20_vs_11,
+        "c15_id_same_shape_22" => c15_id_same_shape_22,
         "c15_id_two_const_labels_order_independent" => c15_id_two_const_labels_order_independent,
-        "c15_dim_hash_structural" => c15_dim_hash_structural,
+        "c15_dim_hash_variable_label_sets" => c15_dim_hash_variable_label_sets,
+        "c15_dim_hash_const_vs_variable" => c15_dim_hash_const_vs_variable,
         _ => return None,
     })
 }
